@@ -145,6 +145,18 @@ impl ClientConnection {
         let mut data_source = self.source.next().unwrap();
         std::mem::swap(&mut self.next_header_source, &mut data_source);
 
+        // the peer address could not be determined when the connection was accepted (the
+        // client had already reset it): there is nobody to answer, treat it as a read error
+        let remote_addr = match self.remote_addr.as_ref() {
+            Ok(addr) => *addr,
+            Err(err) => {
+                return Err(ReadError::ReadIoError(IoError::new(
+                    err.kind(),
+                    "could not determine the peer address",
+                )))
+            }
+        };
+
         // building the next reader
         let request = crate::request::new_request(
             self.secure,
@@ -152,7 +164,7 @@ impl ClientConnection {
             path,
             version.clone(),
             headers,
-            *self.remote_addr.as_ref().unwrap(),
+            remote_addr,
             data_source,
             writer,
         )
